@@ -817,6 +817,8 @@ private:"""),
 {
     strong_convexity(1.0);
     convex(convexity::yes);"""),
+    dict(property="C20", name="histogram-ctor-does-not-sort-thresholds", rule="R-C20-5", file="include/nano/core/histogram.h", tu="src/core/histogram.cpp",
+         old="        std::sort(std::begin(m_thresholds), std::end(m_thresholds));\n\n        update(begin, end);", new="        update(begin, end);"),
     # ---- C09
     dict(property="C09", name="linear-accumulator-sum-drops-gW1", rule="R-C09-2", file="src/linear/accumulator.cpp",
          old="    m_gW1 += other.m_gW1;\n", new=""),
@@ -984,4 +986,7 @@ BENIGN = [
          new="    const auto samples = m_iterator.samples().size();\n    const auto& accumulator = ::nano::sum_reduce(m_accumulators, samples);"),
     dict(property="C09", name="linear-l2-value-rewritten", file="src/linear/function.cpp",
          old="fx += 0.5 * (std::sqrt(m_l2reg) * W.array()).square().mean();", new="fx += 0.5 * m_l2reg * W.array().square().sum() / static_cast<scalar_t>(W.size());"),
+    dict(property="C20", name="histogram-ctor-sorts-values-only-if-needed", file="include/nano/core/histogram.h", tu="src/core/histogram.cpp",
+         old="        std::sort(begin, end);\n        std::sort(std::begin(m_thresholds), std::end(m_thresholds));\n\n        update(begin, end);",
+         new="        if (!std::is_sorted(begin, end))\n        {\n            std::sort(begin, end);\n        }\n        std::sort(std::begin(m_thresholds), std::end(m_thresholds));\n\n        update(begin, end);"),
 ]
